@@ -418,7 +418,7 @@ impl State {
                         if self.config.append {
                             idx
                         } else {
-                            idx + 1
+                            numbers::next_index(idx)?
                         }
                     }
                 };
@@ -537,7 +537,7 @@ impl State {
                         CURRENT_INFIX.to_string()
                     }
                     NamingState::NumbersDirect(ref mut idx_state) => {
-                        *idx_state += 1;
+                        *idx_state = numbers::next_index(*idx_state)?;
                         numbers::number_infix(*idx_state)
                     }
                 };
